@@ -145,7 +145,7 @@ def extract_cases(tlc_out, dest, fam, start_id, extra_fields=None):
             if not m:
                 continue
             c = json.loads(json.loads(m.group(1))[5:])
-            if "bytes" in c or "toks" in c or c.get("mode") in ("date", "num", "evalbytes"):
+            if "bytes" in c or "toks" in c or c.get("mode") in ("date", "num", "evalbytes") or "rxp" in c.get("flags", {}):
                 rec = dict(c, id=start_id + n, fam=fam)
             else:
                 rec = {"id": start_id + n, "fam": fam, "ast": c["ast"], "inp": c["inp"], "binds": fix_binds(c.get("binds", [])), "exp": c.get("exp")}
@@ -351,6 +351,8 @@ def write_replay(prop, tier, seed, ev, verdict, direction):
                     else {"id": 1, "fam": ev.get("fam"), "src": src, "inp": ev.get("inp"), "binds": ev.get("binds", [])})}
     if "exp" in ev:
         rec["expected_default"] = ev["exp"]
+    if "rxp" in ev.get("flags", {}):
+        rec["case"] = {"id": 1, "fam": ev.get("fam"), "mode": "", "flags": ev["flags"], "inp": ev.get("inp")}
     with open(p, "w") as f:
         json.dump(rec, f, indent=1, ensure_ascii=False)
     return p
